@@ -1,7 +1,9 @@
 #!/bin/bash
-# runs setup and every thorough check sequentially; prints one summary line per property
+# runs setup and every thorough check (3 at a time; builds are serialised by the lock); one summary line per property
 make -C . setup 2>&1 | tail -3
-for p in C07 C11 C10 C05 C04 C13 C15 C06 C08 C20 C17 C19 C18 C14 C03 C01 C02 C12 C09 C16; do
-  s=$(date +%s); out=$(timeout 7200 ./check $p --tier thorough 2>&1); rc=$?
+one() {
+  p=$1; s=$(date +%s); out=$(timeout 10800 ./check $p --tier thorough 2>&1); rc=$?
   echo "THOROUGH $p rc=$rc $(( $(date +%s)-s ))s :: $(echo "$out" | grep -E '^(VIOLATION|KNOWN-FINDING)' | cut -c1-150 | head -8 | tr '\n' '|') :: $(echo "$out" | tail -1)"
-done
+}
+export -f one
+printf '%s\n' C09 C15 C14 C12 C18 C16 C02 C06 C08 C20 C05 C04 C10 C03 C01 C13 C11 C17 C19 C07 | xargs -P 3 -I{} bash -c 'one {}'
